@@ -723,7 +723,7 @@ func main() {
 	a := vh.ParseArgs()
 	switch a.Mode {
 	case "gen":
-		n := 14
+		n := 24
 		if a.Tier == "thorough" {
 			n = 300
 		}
